@@ -68,6 +68,24 @@ theorem iterCap_inr_inv {σ β : Type} (step : σ → Sum σ β) (P : β → Pro
       have : b' = b := by simpa using hb
       exact this ▸ h s b' hs
 
+
+/-- an early exit of a capped loop, with an invariant of the state -/
+theorem iterCap_inr_inv' {σ β : Type} (step : σ → Sum σ β) (I : σ → Prop) (P : β → Prop)
+    (hI : ∀ s s', I s → step s = .inl s' → I s') (h : ∀ s b, I s → step s = .inr b → P b) :
+    ∀ (n : Nat) (s : σ) (b : β), I s → iterCap step n s = .inr b → P b := by
+  intro n
+  induction n with
+  | zero => intro s b _ hb; simp [iterCap] at hb
+  | succ n ih =>
+    intro s b hs0 hb
+    simp only [iterCap] at hb
+    cases hs : step s with
+    | inl s' => rw [hs] at hb; exact ih s' b (hI s s' hs0 hs) hb
+    | inr b' =>
+      rw [hs] at hb
+      have : b' = b := by simpa using hb
+      exact this ▸ h s b' hs0 hs
+
 /-- an invariant of the state is kept by a loop -/
 theorem iter_some_inv' {σ β : Type} (step : σ → Sum σ β) (I : σ → Prop) (P : β → Prop)
     (hI : ∀ s s', I s → step s = .inl s' → I s') (h : ∀ s b, I s → step s = .inr b → P b) :
@@ -100,6 +118,15 @@ theorem flat_iter_mono {σ α : Type} (step : σ → Sum σ (R α)) (n k : Nat) 
   cases hi : iter step n s with
   | none => rw [hi] at h; simp [flat] at h
   | some b => rw [hi] at h; rw [iter_mono step n k s b hi]; exact h
+
+
+/-- an outcome that is not a value passes through `map` unchanged -/
+theorem R.map_eq_bad {α : Type} (f : α → α) (r bad : R α) (hbad : ∀ v, bad ≠ .val v) (h : R.map f r = bad) :
+    r = bad := by
+  cases r with
+  | val v => exact absurd h.symm (hbad _)
+  | exc => exact h
+  | hang => exact h
 
 /-! ### constants at `ℝ` -/
 @[simp] theorem three_real : (three : ℝ) = 3 := by simp [three]
